@@ -388,5 +388,36 @@ theorem findPUA_private (existing : List Nat) (fuel code v : Nat) (h : findPUA e
     · cases h; exact viablePUA_private code
     · exact ih _ h
 
+/-! ## the composed model -/
+
+theorem tableDB_ordered (rows : List DBRow) (o c : List (Nat × Nat)) (T : Tables)
+    (hr : ∀ r ∈ rows, r.cat ∈ T.orderedCategories ∧ r.script ∈ T.orderedScripts)
+    (hd : "Cn" ∈ T.orderedCategories ∧ "Unknown" ∈ T.orderedScripts) : DBOrdered (tableDB rows o c) T := by
+  constructor
+  · intro v
+    simp only [tableDB, rowOf]
+    cases h : rows.find? (fun r => r.cp == v) with
+    | none => exact hd.1
+    | some r => exact (hr r (mem_of_find?_eq_some h)).1
+  · intro v
+    simp only [tableDB, rowOf]
+    cases h : rows.find? (fun r => r.cp == v) with
+    | none => exact hd.2
+    | some r => exact (hr r (mem_of_find?_eq_some h)).2
+
+theorem categoryFor_ordered (db : UniDB) (s : UData) (T : Tables) (hdb : DBOrdered db T)
+    (hd : "Cn" ∈ T.orderedCategories) (n : Name) (p : Bool) : categoryFor db s n p ∈ T.orderedCategories := by
+  unfold categoryFor
+  split
+  · exact hd
+  · exact hdb.1 _
+
+theorem scriptFor_ordered (db : UniDB) (s : UData) (T : Tables) (hdb : DBOrdered db T)
+    (hd : "Unknown" ∈ T.orderedScripts) (n : Name) (p : Bool) : scriptFor db s n p ∈ T.orderedScripts := by
+  unfold scriptFor
+  split
+  · exact hd
+  · exact hdb.2 _
+
 end NameLookups
 end DefconModel
